@@ -51,6 +51,11 @@ pub enum NodeOp {
     CrashInCompaction { bytes: u64 },
     /// append a line to <data dir>/.marker (ordered with the file mutations by the LD_PRELOAD journal, E5)
     Marker(String),
+    /// path, last index and term of the newest catalogued snapshot
+    SnapshotFile,
+    /// follower path: what async-raft does when a snapshot stream ends - create_snapshot, write the bytes of `path`,
+    /// finalize_snapshot_installation(index, term, delete_through = Some(index) iff the own log reaches beyond it)
+    InstallSnapshot { path: String, index: u64, term: u64 },
 }
 
 #[derive(Debug, Clone, Serialize, Deserialize)]
@@ -64,6 +69,7 @@ pub enum NodeRes {
     Range { start: u64, len: u64 },
     HistoryIds(Value),
     IndexInfo { last_applied: u64, snapshot_end: u64, last_log: u64 },
+    SnapshotFile { path: String, index: u64, term: u64 },
 }
 
 #[derive(Debug, Clone, Serialize, Deserialize)]
@@ -360,7 +366,9 @@ pub async fn dump(app: &Arc<AppShareData>) -> Value {
         "instances": instances, "membership": membership, "sequences": seqs, "snapshot_records": snapshot_records,
     });
     // internal bookkeeping that no API serves (its effects are caught by the reference-run comparison)
-    strip_keys(&mut out, &["ref_count", "refCount"]);
+    if std::env::var("RNV_KEEP_REFCOUNT").is_err() {
+        strip_keys(&mut out, &["ref_count", "refCount"]);
+    }
     out
 }
 
@@ -579,6 +587,53 @@ async fn exec(app: &Arc<AppShareData>, op: &NodeOp, spawned: &mut Vec<tokio::tas
             }
             store_barrier(app).await;
             NodeRes::Ok
+        }
+        NodeOp::SnapshotFile => {
+            store_barrier(app).await;
+            match app.factory_data.get_actor::<RaftIndexManager>() {
+                Some(idx) => match idx.send(RaftIndexRequest::LoadIndexInfo).await {
+                    Ok(Ok(RaftIndexResponse::RaftIndexInfo { raft_index, .. })) => match raft_index.snapshots.last() {
+                        Some(sn) => {
+                            let dir = app.sys_config.local_db_dir.clone();
+                            let path = Path::new(&dir).join(format!("snapshot_{}", sn.id)).to_string_lossy().to_string();
+                            // the entry at the snapshot's last index is the pointer (or the original entry): both carry its term
+                            let term = match app.raft_store.get_log_entries(sn.end_index, sn.end_index + 1).await {
+                                Ok(es) => es.first().map(|e| e.term).unwrap_or(0),
+                                Err(_) => 0,
+                            };
+                            NodeRes::SnapshotFile { path, index: sn.end_index, term }
+                        }
+                        None => NodeRes::Err("no snapshot catalogued".into()),
+                    },
+                    _ => NodeRes::Err("LoadIndexInfo failed".into()),
+                },
+                None => NodeRes::Err("no index manager".into()),
+            }
+        }
+        NodeOp::InstallSnapshot { path, index, term } => {
+            let bytes = match std::fs::read(path) {
+                Ok(b) => b,
+                Err(e) => return NodeRes::Err(format!("read {}: {}", path, e)),
+            };
+            let last = app.raft_store.get_last_log_index().await.map(|l| l.index).unwrap_or(0);
+            let (id, mut file) = match app.raft_store.create_snapshot().await {
+                Ok(x) => x,
+                Err(e) => return NodeRes::Err(format!("create_snapshot: {}", e)),
+            };
+            {
+                use tokio::io::AsyncWriteExt;
+                if let Err(e) = file.write_all(&bytes).await {
+                    return NodeRes::Err(format!("write snapshot: {}", e));
+                }
+                if let Err(e) = file.flush().await {
+                    return NodeRes::Err(format!("flush snapshot: {}", e));
+                }
+            }
+            let delete_through = if last > *index { Some(*index) } else { None };
+            match app.raft_store.finalize_snapshot_installation(*index, *term, delete_through, id, file).await {
+                Ok(()) => NodeRes::Ok,
+                Err(e) => NodeRes::Err(format!("finalize_snapshot_installation: {}", e)),
+            }
         }
         NodeOp::SeqNext(key) => match app.sequence_manager.send(rnacos::sequence::SequenceRequest::GetNextId(Arc::new(key.clone()))).await {
             Ok(Ok(rnacos::sequence::SequenceResult::NextId(id))) => NodeRes::Seq(id),
